@@ -245,6 +245,10 @@ def signal_trap_family(ctx):
                               % (flowgen.sq(handler), sig, pre, sig))
                     cases.append((sig + "/" + hn, script, mode))
     res = lib.pmap(lambda c: (lib.run_shell("brush", c[1], mode=c[2], timeout=20), lib.run_shell("bash", c[1], mode=c[2], timeout=20)), cases)
+    for i, (b, o) in enumerate(res):          # a timeout under load is not evidence: retry alone, generously
+        if b["timeout"] or o["timeout"]:
+            c = cases[i]
+            res[i] = (lib.run_shell("brush", c[1], mode=c[2], timeout=120), lib.run_shell("bash", c[1], mode=c[2], timeout=120))
     for (tag, script, mode), (b, o) in zip(cases, res):
         ctx.count("sig" + script + mode, nontrivial=True, bucket="signal-trap")
         ctx.impl_validated += 1
@@ -262,18 +266,38 @@ def signal_trap_family(ctx):
 
 ERR_TRAPS = ["trap 'echo \"E$?\" >&3' ERR", "trap 'echo \"E$?\" >&3; (exit 4)' ERR", "trap 'echo \"E$?\" >&3' ERR; set -E",
              "trap 'echo \"E$?\" >&3' ERR; trap 'echo \"T$?\" >&3' EXIT",
-             "trap 'echo \"E$?\" >&3; (exit 4); echo \"e$?\" >&3' ERR; set -E"]
+             "trap 'echo \"E$?\" >&3; (exit 4); echo \"e$?\" >&3' ERR; set -E",
+             # handlers that leave their own frame before a command fails in them (a function, a nested function, a
+             # sourced file, eval): the handler must not re-enter itself (Hb … He never nest)
+             "hf() { echo \"E$?\" >&3; echo Hb >&3; (exit 4); echo He >&3; }; trap hf ERR; set -E",
+             "hf() { echo \"E$?\" >&3; echo Hb >&3; hg; echo He >&3; }; hg() { (exit 4); Q 5; }; trap hf ERR; set -E",
+             "hf() { echo \"E$?\" >&3; echo Hb >&3; (exit 4); echo He >&3; }; trap hf ERR",
+             "trap '. @HFILE@' ERR",
+             "trap '. @HFILE@' ERR; set -E",
+             "trap 'eval \"echo E\\$? >&3; echo Hb >&3; (exit 4); echo He >&3\"' ERR; set -E"]
+HFILE_TEXT = 'echo "E$?" >&3; echo Hb >&3\n(exit 4)\nQ 5\necho He >&3\n'
 
 
 def err_trap_direct(ctx):
+    import tempfile, shutil
+    hdir = tempfile.mkdtemp(prefix="c16h-")
+    try:
+        with open(os.path.join(hdir, "h.sh"), "w") as f:
+            f.write(HFILE_TEXT)
+        _err_trap_direct(ctx, os.path.join(hdir, "h.sh"))
+    finally:
+        shutil.rmtree(hdir, ignore_errors=True)
+
+
+def _err_trap_direct(ctx, hfile):
     rng = ctx.rng
     cases = []
-    for i in range(ctx.size(400, 8000)):
-        trap = rng.choice(ERR_TRAPS)
+    for i in range(ctx.size(600, 8000)):
+        trap = rng.choice(ERR_TRAPS).replace("@HFILE@", hfile)
         # a handler with a failing command is only paired with programs that never enable errexit (under errexit
         # bash leaves the shell from inside the handler: recorded finding exit_in_trap_handler_ignored, whose
         # knock-on effects on later handler runs are not worth classifying)
-        failing_handler = "(exit 4)" in trap
+        failing_handler = "(exit 4)" in trap or "HFILE" in trap or hfile in trap
         feats = ("cs", "ev", "nobang") if failing_handler else ("opts", "cs", "ev", "nobang")
         g = flowgen.Gen(random.Random(rng.getrandbits(48)), feats, budget=rng.choice([4, 6, 10]))
         p = g.program(rng.choice([2, 3]), prefix=([("O", "e", True)] if (rng.random() < 0.3 and not failing_handler) else None))
@@ -292,12 +316,21 @@ def err_trap_direct(ctx):
         if "( (" in s:
             continue
         cb, co = canon(b), canon(o)
-        if cb == co:
+        # intrinsic: the handler never re-enters itself (on brush's own trace, whatever bash does)
+        depth = 0
+        for t in _toks(cb):
+            depth += 1 if t == "Hb" else -1 if t == "He" else 0
+            if depth > 1:
+                ctx.violation("the ERR handler re-entered itself (a second handler start before the first one ended)",
+                              {"script": s, "brush": cb, "bash": co, "brush_stderr": b["err"][-300:]}, kind="property")
+                break
+        if cb == co or depth > 1:
             continue
         case = {"script": s, "brush": cb, "bash": co, "brush_stderr": b["err"][-300:]}
         tb, to = _toks(cb), _toks(co)
-        rest_b, rest_o = [t for t in tb if t[0] not in "Ee"], [t for t in to if t[0] not in "Ee"]
-        eb, eo = [t for t in tb if t[0] in "Ee"], [t for t in to if t[0] in "Ee"]
+        ish = lambda t: t[0] in "Ee" or t in ("Hb", "He")        # the handler's own output
+        rest_b, rest_o = [t for t in tb if not ish(t)], [t for t in to if not ish(t)]
+        eb, eo = [t for t in tb if ish(t)], [t for t in to if ish(t)]
         if rest_b == rest_o and _subseq(eo, eb):
             # everything but the ERR handler's own output is identical and brush runs the handler at a superset
             # of bash's points
